@@ -4,6 +4,8 @@
 use vstd::prelude::*;
 use vstd::string::*;
 use vstd::std_specs::hash::*;
+use vstd::imap::*;
+use vstd::iset::*;
 use std::collections::HashMap;
 
 // Macro shadows: error *messages* are abstracted to arbitrary strings, `trace!` has no effect,
